@@ -122,6 +122,10 @@ fn strategy(tier: Tier) -> BoxedStrategy<Case> {
         .boxed()
 }
 
+pub fn strategy_pub(tier: Tier) -> BoxedStrategy<Case> {
+    strategy(tier)
+}
+
 pub fn materialise(src: &Src) -> Vec<u8> {
     match src {
         Src::Well(r) => r.encode(),
